@@ -329,15 +329,22 @@ func runExhaust(h *XHistory, u upstream.Upstream) {
 	// after, are issued in concurrent waves, so that several callers meet the
 	// connection at its end of life together
 	seqN := 65536 - 300
+	yieldPaused.Store(true)
 	defer func() {
+		yieldPaused.Store(false)
 		var wg sync.WaitGroup
-		for i := seqN; i < n+300; i += 8 {
-			for k := 0; k < 8; k++ {
+		const wave = 24
+		for i := seqN; i < n+300; i += wave {
+			for k := 0; k < wave; k++ {
 				wg.Add(1)
 				idx := i + k
 				go func() {
 					defer wg.Done()
-					time.Sleep(time.Duration(s.IntN("exw", uint64(idx), 300)) * time.Microsecond)
+					// per wave: callers start together (interleaved only at the
+					// yield points), nearly together, or spread over a round trip
+					if spread := []int{0, 0, 20, 300}[s.IntN("exw-spread", uint64(i), 4)]; spread > 0 {
+						time.Sleep(time.Duration(s.IntN("exw", uint64(idx), spread)) * time.Microsecond)
+					}
 					c := &plan.XCall{Idx: 1_000_000 + idx, Token: fmt.Sprintf("tx%d", idx), ID: uint16(idx * 7), Type: 1}
 					ctx, cancel := context.WithTimeout(context.Background(), 3*time.Second)
 					m, err := u.ExchangeContext(ctx, xQuery(c))
@@ -779,7 +786,16 @@ func checkC16(h *XHistory) {
 			if c.Msg != nil && c.HasMeta && protoOfSerial(u, c.Meta) != "udp" {
 				s.Fail("C16", "not-udp-reply", "%s: no TC, but the returned serial %d was not the UDP reply", name, c.Meta.Serial)
 			}
-			if c.Msg == nil && inTime && c.C.CancelUs == 0 && !eventIn(h, c.C.Up, c.Start, c.End) && h.P.Knobs.StallProb == 0 {
+			// a malformed datagram (an empty one in particular) makes the
+			// transport drop the socket; a reply that reaches the dropped
+			// socket afterwards was not received at all
+			disturbed := false
+			for _, r := range u.Replies {
+				if r.Conn == first.Conn && r.Kind == "garbage" && r.At >= c.Start && r.At <= first.At+us(h.XP.Net.UpLatUs[1]) {
+					disturbed = true
+				}
+			}
+			if c.Msg == nil && inTime && !disturbed && c.C.CancelUs == 0 && !eventIn(h, c.C.Up, c.Start, c.End) && h.P.Knobs.StallProb == 0 {
 				s.Fail("C16", "udp-reply-lost", "%s: the UDP reply (no TC) arrived in time but the call failed: %s", name, c.Err)
 			}
 		}
@@ -797,6 +813,10 @@ func protoOfSerial(u *peers.UpServer, m peers.Meta) string {
 
 func checkC18x(h *XHistory) {
 	s := h.S
+	sigma := time.Duration(0)
+	if h.P.Knobs.YieldDensity > 0 && h.P.Knobs.StallProb > 0 {
+		sigma = 4 * time.Duration(max(1000, h.P.Knobs.StallMaxUs)) * time.Microsecond
+	}
 	if len(h.Open) > 0 {
 		s.Fail("C18", "leak-after-close", "after Close and a 150 s grace period the proxy still owns: %s", strings.Join(h.Open, "; "))
 	}
@@ -832,6 +852,13 @@ func checkC18x(h *XHistory) {
 				}
 			} else if c.End > closed {
 				s.Probe("c18_call_inflight_at_close")
+				// in flight when Close returned: it has to fail (or finish) now,
+				// not when its own deadline or some I/O timeout comes round.
+				// Nothing a closed upstream still has to do needs a round trip;
+				// one second of simulated time is the slack for injected stalls.
+				if c.End > closed+time.Second+sigma && c.Start+c.Limit > closed+2*time.Second {
+					s.Fail("C18", "inflight-outlives-close", "call %d (upstream %s, %s) was in flight when Close returned at %v and only returned %v later (%s)", c.C.Idx, h.XP.Upstreams[up].Tag, h.XP.Upstreams[up].Kind, closed, c.End-closed, c.Err)
+				}
 			}
 		}
 	}
